@@ -23,6 +23,7 @@ EXPLANATION = (
     "Sibling clauses: registrations of one commutative op for (scalar, array) and (array, scalar) must be mirror images; an "
     "array-library function registered as the implementation of an op must be that op's counterpart. The finite set of table "
     "entries and registrations is enumerated completely."
+    ' Added since: R15.8-R15.10 abstract interpretation over the IEEE special-value domain (funsorlint/specval.py): every implementation of every LOGADDEXP-identified op, logsumexp and the log-einsum kernel is NaN-free on {-inf, finite} and exact at -inf; every op SAFE_BINARY_INVERSES declares, and reciprocal, is NaN-free on its domain (default implementations analysed for the argument kinds no registration covers); scalar and array implementations agree at the special values; array kernels do not clamp with the float64 constant.'
 )
 ASSUMPTIONS = [
     "funsorlint/axioms.py states the mathematics correctly (neutral elements, distributive pairs with their carriers, inverses, powers, folds)",
